@@ -30,6 +30,7 @@ func init() {
 			Trusted:     commonTrusted,
 		},
 		Mutants: []Mutant{
+			{Name: "closing comment marker searched from the opening marker (agent seed C02/1)", File: "lex.go", Old: "\tl.pos += Pos(len(l.leftComment))\n\ti := strings.Index(l.input[l.pos:], l.rightComment)", New: "\ti := strings.Index(l.input[l.pos:], l.rightComment)", Rule: "C02.struct"},
 			{Name: "peek clobbers width (original defect)", File: "lex.go", Old: "\twidth := l.width\n\tr := l.next()\n\tl.backup()\n\tl.width = width // keep describing the last consumed rune, so backup() stays valid after peek()\n\treturn r", New: "\tr := l.next()\n\tl.backup()\n\treturn r", Rule: "C02.width"},
 			{Name: "double backup in lexField", File: "lex.go", Old: "\t\tif !isAlphaNumeric(r) {\n\t\t\tl.backup()\n\t\t\tbreak\n\t\t}\n\t}\n\tif !l.atTerminator() {", New: "\t\tif !isAlphaNumeric(r) {\n\t\t\tl.backup()\n\t\t\tbreak\n\t\t}\n\t}\n\tl.backup()\n\tif !l.atTerminator() {", Rule: "C02.width"},
 			{Name: "parseCatch dereferences a nil term (original defect)", File: "parse.go", Old: "\t\tif _errVar == nil {\n\t\t\tt.unexpected(t.next(), \"catch\", \"identifier\")\n\t\t}\n", New: "", Rule: "C02.nil"},
@@ -678,6 +679,45 @@ func c02struct(c *an.Ctx) {
 		})
 		c.Check(ok, "C02.struct", "(*Template).parseTemplate/surplus-terminator", f.Pos(), "a surplus {{end}}, {{else}} or {{content}} at top level is an error",
 			"parseTemplate does not send a top-level nodeEnd/nodeElse/nodeContent to a no-return error: a surplus {{end}} is silently accepted")
+	}
+	// lexComment: the closing marker is searched after the opening one (else overlapping markers such as
+	// `{*}` close themselves and an unterminated comment is accepted)
+	if f := c.Fn("C02.struct", "lexComment"); f != nil {
+		skipped := false
+		okOrder, sawIndex := true, false
+		x := p.NewExplorer(f, an.Hooks{
+			PreAssign: func(x *an.Explorer, lhs, rhs ast.Expr, stmt ast.Node, st *an.State) {
+				if p.FieldKey(info, lhs) == "lexer.pos" && rhs != nil && strings.Contains(an.Str(rhs), "len(l.leftComment)") {
+					if as, ok := stmt.(*ast.AssignStmt); ok && as.Tok == token.ADD_ASSIGN {
+						st.Set("skipped", "1")
+						skipped = true
+					}
+				}
+			},
+			Call: func(x *an.Explorer, call *ast.CallExpr, st *an.State) {
+				if an.CalleeName(info, call) == "strings.Index" && strings.Contains(an.Str(call.Args[1]), "rightComment") {
+					sawIndex = true
+					if st.Get("skipped") == "" || !strings.Contains(an.Str(call.Args[0]), "l.input[l.pos:]") {
+						okOrder = false
+					}
+				}
+			},
+		})
+		x.Run(nil)
+		c.States += x.Visited
+		c.Check(skipped && sawIndex && okOrder, "C02.struct", "lexComment/close-after-open", f.Pos(), "the closing comment marker is searched after the opening marker",
+			"lexComment searches for the closing marker without first skipping the opening one: with overlapping markers (`{*}`) an unterminated comment is silently accepted")
+		// not found → error
+		okErr := false
+		an.InspectOwn(f, func(n ast.Node) bool {
+			if is, ok := n.(*ast.IfStmt); ok && strings.ReplaceAll(an.Str(is.Cond), " ", "") == "i<0" && len(is.Body.List) == 1 {
+				if ret, ok := is.Body.List[0].(*ast.ReturnStmt); ok && strings.Contains(an.Str(ret.Results[0]), "l.errorf(") {
+					okErr = true
+				}
+			}
+			return true
+		})
+		c.Check(okErr, "C02.struct", "lexComment/unclosed", f.Pos(), "an unclosed comment is a lexing error", "lexComment does not report a comment whose closing marker is missing")
 	}
 	// unexpected(): the extends/import arm
 	if f := c.Fn("C02.struct", "(*Template).unexpected"); f != nil {
